@@ -124,4 +124,15 @@ Corrupt(T, p, kind) ==
       [] kind = "glued-word"        -> Splice(T, p + 2, p + 2, <<<<"X", "1abc">>>>)
       [] kind = "missing-close"     -> Splice(T, p + 4, p + 4, <<>>)
 CorruptKinds == {"dropped-float", "extra-float", "literal-for-float", "glued-word", "missing-close"}
+
+\* ======================= coincident points =======================
+\* the same document with the values of its k-th point (k = 0, 1, ..) replaced by those of point k % m: for m = 1 every point of the
+\* document is the same point, for m = 2 there are two alternating ones.  The structure (who is whose parent) cannot depend on the values.
+DupStream(T, m) == LET PS == PointStarts(T) IN
+                   [p \in 1 .. Len(T) |->
+                      IF IsT(T[p], "F") /\ \E q \in PS : q <= p /\ p <= q + 3
+                      THEN LET st == CHOOSE q \in PS : q <= p /\ p <= q + 3
+                               idx == Cardinality({ q \in PS : q < st }) IN
+                           F(PointVals(idx % m)[p - st + 1])
+                      ELSE T[p]]
 =============================================================================
